@@ -272,6 +272,43 @@ async fn doc_custom(rqctx: RequestContext<()>, path: Path<IdPath>) -> Result<Htt
     }
 }
 
+// A second custom error type with the *same Rust identifier* in another module (widgets::Error and
+// gadgets::Error are everyday): the document must keep the two apart.
+mod gadgets {
+    use super::*;
+    #[derive(Debug, Serialize, JsonSchema)]
+    pub struct ThingyError {
+        pub gadget_problem: String,
+        pub retryable: bool,
+        #[serde(skip)]
+        pub status: u16,
+    }
+    impl std::fmt::Display for ThingyError {
+        fn fmt(&self, f: &mut std::fmt::Formatter<'_>) -> std::fmt::Result {
+            write!(f, "{:?}", self)
+        }
+    }
+    impl From<HttpError> for ThingyError {
+        fn from(e: HttpError) -> Self {
+            ThingyError { gadget_problem: e.external_message, retryable: false, status: e.status_code.as_u16() }
+        }
+    }
+    impl HttpResponseError for ThingyError {
+        fn status_code(&self) -> ErrorStatusCode {
+            ErrorStatusCode::from_u16(self.status).unwrap_or(ErrorStatusCode::INTERNAL_SERVER_ERROR)
+        }
+    }
+}
+#[endpoint { method = GET, path = "/gadgets/{id}" }]
+async fn doc_gadget(rqctx: RequestContext<()>, path: Path<IdPath>) -> Result<HttpResponseOk<Thing>, gadgets::ThingyError> {
+    entered(&rqctx, "doc_gadget");
+    match path.into_inner().id {
+        id if id % 3 == 0 => Err(gadgets::ThingyError { gadget_problem: "jammed".into(), retryable: true, status: 503 }),
+        id if id % 3 == 1 => Err(gadgets::ThingyError { gadget_problem: "no such gadget".into(), retryable: false, status: 404 }),
+        id => Ok(HttpResponseOk(thing(id))),
+    }
+}
+
 // Responses the handler returns successfully but the framework cannot turn into an HTTP response (an
 // illegal header value, a body that fails to serialise): the 500 it generates must be valid against the error
 // schema documented for that operation -- the endpoint's own error type where it has one.
@@ -365,6 +402,7 @@ fn main() {
         api.register(doc_paged).unwrap();
         api.register(doc_fail).unwrap();
         api.register(doc_custom).unwrap();
+        api.register(doc_gadget).unwrap();
         api.register(doc_custom_hdr).unwrap();
         api.register(doc_custom_fussy).unwrap();
         api.register(doc_plain_hdr).unwrap();
